@@ -81,7 +81,7 @@ theorem ch_edgesOf (c : Nat) : ∀ (g : SF) (par : Nat), par ∉ g.idxs → g.id
       · have hnc : ¬ n.idx = c := fun e => hcn e.symm
         simp [hpc, hc, hcn, hnc, kidsOf]
 
-theorem edgesOf_length : ∀ (g : SF) (par : Nat), (edgesOf par g).length = g.numNodes := by
+theorem edgesOf_length_c15 : ∀ (g : SF) (par : Nat), (edgesOf par g).length = g.numNodes := by
   intro g
   induction g with
   | nil => intro _; rfl
